@@ -492,6 +492,58 @@ def check_register(case: t.Any, ctx: Ctx) -> None:
     Executor(ctx)._register_after_use()
 
 
+def reuse_cases(shard: int, nshards: int) -> t.Iterator[t.Any]:
+    i = 0
+    for lay in ('internal-class-attribute', 'external', 'adjacent'):
+        for first in ('serialise', 'parse', 'convert-instance'):
+            if i % nshards == shard:
+                yield [lay, first]
+            i += 1
+
+
+def check_reuse(case: t.Any, ctx: Ctx) -> None:
+    """A memoised tagged-union converter recognises a variant *instance* (inside Optional, where the enclosing union asks it) the
+    second and third time as it did the first - whatever it was used for in between; a converter built afresh is the reference."""
+    import pane
+    import types as _types
+    from pane.annotations import Tagged
+    from pane.convert import make_converter
+    (lay, first) = case
+    ext: t.Any = {'internal-class-attribute': False, 'external': True, 'adjacent': ('type', 'value')}[lay]
+    body = (lambda ns: ns.update({'__annotations__': {'r': float}, 'kind': 'circle'})) if lay.startswith('internal') else \
+        (lambda ns: ns.update({'__annotations__': {'r': float, 'kind': t.Literal['circle']}, 'kind': 'circle'}))
+    body2 = (lambda ns: ns.update({'__annotations__': {'side': float}, 'kind': 'square'})) if lay.startswith('internal') else \
+        (lambda ns: ns.update({'__annotations__': {'side': float, 'kind': t.Literal['square']}, 'kind': 'square'}))
+    Circle = _types.new_class('Circle', (pane.PaneBase,), {}, body)
+    Square = _types.new_class('Square', (pane.PaneBase,), {}, body2)
+    TU = t.Annotated[t.Union[Circle, Square], Tagged('kind', external=ext)]
+    Doc = _types.new_class('Doc', (pane.PaneBase,), {}, lambda ns: ns.update({'__annotations__': {'name': str, 'shape': t.Optional[TU]}}))
+    ctx.label(lay, f"first:{first}")
+    ctx.nontrivial(True)
+    x = Doc.make_unchecked(name='a', shape=Circle.make_unchecked(r=1.0))
+    y = Doc.make_unchecked(name='b', shape=Square.make_unchecked(side=2.0))
+    ref = outcome(lambda: pane.into_data(x, Doc))          # the first use of everything: nothing memoised has any history yet
+    if ref[0] != 'ok':
+        return
+    steps = {'serialise': lambda: pane.into_data(y, Doc), 'parse': lambda: pane.from_data(ref[1], Doc),
+             'convert-instance': lambda: make_converter(TU).convert(Square.make_unchecked(side=4.0))}
+    outcome(steps[first])
+    for (what, f, want) in (('into_data again', lambda: pane.into_data(x, Doc), ref[1]),
+                            ('into_data of another instance', lambda: pane.into_data(y, Doc)['shape'], None),
+                            ('an instance given to the memoised converter', lambda: make_converter(TU).convert(Square.make_unchecked(side=4.0)), Square.make_unchecked(side=4.0))):
+        ctx.evaluated()
+        (k, r) = outcome(f)
+        if what.startswith('into_data of another'):
+            want = pane.from_data({'name': 'b', 'shape': r}, Doc) if k == 'ok' else None
+            ok = k == 'ok' and outcome(lambda: pane.from_data({'name': 'b', 'shape': r}, Doc)) == ('ok', y)
+        else:
+            ok = k == 'ok' and r == want
+        if not ok:
+            ctx.fail('history-independent', f"tagged-union-reused:{lay}", f"Optional[tagged union] ({lay}) field; after the first serialisation and one '{first}' step: "
+                     f"{what} gave {k} {short(r, 120)}; the first time (and a converter built afresh) gives {short(want, 120)}")
+            return
+
+
 def fwd_cases(shard: int, nshards: int) -> t.Iterator[t.Any]:
     for i in range(4):
         if i % nshards == shard:
@@ -687,6 +739,7 @@ def suites(tier: str) -> t.List[Suite]:
     return [
         Suite('history', check_history, stateful=lambda: make_machine(steps, big), examples=400 if big else 40, step_count=steps,
               budget_s=480 if big else 45, render=render),
+        Suite('tagged-union-reused', check_reuse, cases=reuse_cases, exhaustive=True, budget_s=20, render=lambda c: {'layout': c[0], 'first use': c[1]}),
         Suite('forward-reference', check_forward_ref, cases=fwd_cases, exhaustive=True, budget_s=20, render=lambda c: {'n': c[0]}),
         Suite('register-after-use', check_register, cases=register_cases, exhaustive=True, budget_s=30, render=lambda c: {'registration': c[0]}),
         Suite('keycache', check_keycache, strategy=keycache_cases, examples=3000 if big else 300, budget_s=60),
